@@ -52,6 +52,7 @@ struct Beh {
     yields: usize,
     fail_first: usize,
     always_fail: bool,
+    eager: bool,
 }
 
 #[derive(Debug)]
@@ -60,12 +61,28 @@ pub struct Wd {
     counter: usize,
 }
 
+static WORLD_NEW_MODE: AtomicUsize = AtomicUsize::new(0); // 0 ok, 1 err, 2 panic while polled, 3 panic when called
+
 impl World for Wd {
-    type Error = std::convert::Infallible;
-    async fn new() -> Result<Self, Self::Error> {
-        let id = WORLDS.fetch_add(1, Ordering::SeqCst);
-        log(format!("world_new w{id}"));
-        Ok(Self { id, counter: 0 })
+    type Error = String;
+    // hand-written (not `async fn`): the part before the returned future runs when `new()` is CALLED
+    fn new() -> impl Future<Output = Result<Self, Self::Error>> {
+        let mode = WORLD_NEW_MODE.load(Ordering::SeqCst);
+        log(format!("world_new_called mode={mode}"));
+        if mode == 3 {
+            panic!("scripted eager failure of World::new");
+        }
+        async move {
+            if mode == 2 {
+                panic!("scripted failure of World::new");
+            }
+            if mode == 1 {
+                return Err("scripted error of World::new".to_owned());
+            }
+            let id = WORLDS.fetch_add(1, Ordering::SeqCst);
+            log(format!("world_new w{id}"));
+            Ok(Self { id, counter: 0 })
+        }
     }
 }
 
@@ -97,6 +114,11 @@ fn behave(kind: &str, key: String, w: usize, wc: usize) -> impl Future<Output = 
         *e
     });
     let kind = kind.to_owned();
+    if b.eager && (b.always_fail || n <= b.fail_first) {
+        // the failure happens when the function is CALLED, before it returns its future
+        log(format!("enter {kind} [{key}] call={n} world=w{w} counter={wc} eager_panic"));
+        panic!("scripted eager failure of {key}");
+    }
     async move {
         let infl = INFLIGHT.fetch_add(1, Ordering::SeqCst) + 1;
         PEAK.fetch_max(infl, Ordering::SeqCst);
@@ -181,8 +203,23 @@ pub fn run(lines: Vec<Vec<String>>, raw: String) {
     let wd_ms: u64 = lines.iter().find(|l| l[0] == "watchdog_ms").map_or(10_000, |l| l[1].parse().unwrap());
     let (tx, rx) = mpsc::channel::<Vec<String>>();
     thread::spawn(move || {
-        let out = inner(lines, raw);
-        let _ = tx.send(out);
+        let out = std::panic::catch_unwind(std::panic::AssertUnwindSafe(|| inner(lines, raw)));
+        match out {
+            Ok(out) => {
+                let _ = tx.send(out);
+            }
+            Err(p) => {
+                let msg = p.downcast_ref::<String>().cloned().or_else(|| p.downcast_ref::<&str>().map(|s| (*s).to_owned())).unwrap_or_default();
+                let mut out: Vec<String> = vec![];
+                LOG.with(|l| {
+                    for x in l.borrow().iter() {
+                        out.push(format!("LOG {x}"));
+                    }
+                });
+                out.push(format!("RESULT timeout=false stream_ended=false escaped=true payload={}", msg.replace(' ', "_")));
+                let _ = tx.send(out);
+            }
+        }
     });
     match rx.recv_timeout(Duration::from_millis(wd_ms)) {
         Ok(out) => {
@@ -239,6 +276,7 @@ fn inner(lines: Vec<Vec<String>>, raw: String) -> Vec<String> {
         items.push((late, Some(Ok(parse_feature(&text)))));
     }
     let mut nomatch: Vec<String> = vec![];
+    let mut ambiguous: Vec<String> = vec![];
     for l in &lines {
         match l[0].as_str() {
             "step" | "hook" => {
@@ -247,10 +285,13 @@ fn inner(lines: Vec<Vec<String>>, raw: String) -> Vec<String> {
                     yields: kv(l, "yields").map_or(0, |v| v.parse().unwrap()),
                     fail_first: kv(l, "fail_first").map_or(0, |v| v.parse().unwrap()),
                     always_fail: l.iter().any(|t| t == "always_fail"),
+                    eager: l.iter().any(|t| t == "eager"),
                 };
                 BEH.with(|m| m.borrow_mut().insert(key, b));
             }
             "nomatch" => nomatch.push(l[1].replace('_', " ")),
+            "ambiguous" => ambiguous.push(l[1].replace('_', " ")),
+            "world_new" => WORLD_NEW_MODE.store(match l[1].as_str() { "err" => 1, "panic" => 2, "eager_panic" => 3, _ => 0 }, Ordering::SeqCst),
             _ => {}
         }
     }
@@ -311,7 +352,12 @@ fn inner(lines: Vec<Vec<String>>, raw: String) -> Vec<String> {
     }
     let alt = defined.iter().map(|s| regex::escape(s)).collect::<Vec<_>>().join("|");
     let re = regex::Regex::new(&format!("^({})$", if alt.is_empty() { "\u{1}never".to_owned() } else { alt })).unwrap();
-    let r = r.given(re.clone(), step_fn).when(re.clone(), step_fn).then(re, step_fn);
+    let mut r = r.given(re.clone(), step_fn).when(re.clone(), step_fn).then(re, step_fn);
+    for a in &ambiguous {
+        // a second definition matching the same text makes the step ambiguous
+        let re2 = regex::Regex::new(&format!("^{}()$", regex::escape(a))).unwrap();
+        r = r.given(re2.clone(), step_fn).when(re2.clone(), step_fn).then(re2, step_fn);
+    }
     let hooks = lines.iter().find(|l| l[0] == "hooks").map_or("none".to_owned(), |l| l[1].clone());
     let parser_stream = Lazy { items, idx: 0, polls: 0 };
     let mut out: Vec<String> = vec![];
